@@ -371,12 +371,15 @@ func (r *Runner) symx(pkgs []*FixPkg) {
 	res := runHarnesses(ld, opts)
 	r.Results = append(r.Results, res...)
 	r.Extra["bounds"] = b
+	r.classify(res)
+}
+
+// classify turns harness results into VIOLATION / KNOWN-FINDING / INCONCLUSIVE lines (with native replay).
+func (r *Runner) classify(res []HarnessResult) {
 	kfRe := regexp.MustCompile(`__KF_([A-Za-z0-9]+)$`)
 	for i := range res {
 		hr := &res[i]
-		p := relOf[hr.Pkg]
 		rel := strings.TrimPrefix(hr.Pkg, modPath+"/")
-		_ = p
 		kfID := ""
 		if m := kfRe.FindStringSubmatch(hr.Name); m != nil {
 			kfID = m[1]
@@ -558,4 +561,69 @@ func (r *Runner) writeEvidence() {
 	os.MkdirAll(filepath.Join(verifDir(), "evidence"), 0o755)
 	data, _ := json.MarshalIndent(ev, "", " ")
 	os.WriteFile(filepath.Join(verifDir(), "evidence", spec.ID+".json"), data, 0o644)
+}
+
+// modeB runs hand-written harnesses that live inside a package of the repository itself (they need its
+// unexported identifiers): the harness files are copied into the scratch copy of that package.
+func (r *Runner) modeB(pkgRel string, filter string, native bool, bounds Bounds) {
+	src := filepath.Join(verifDir(), "harness", pkgRel)
+	ents, err := os.ReadDir(src)
+	if err != nil {
+		r.inconsistent("harness directory missing: " + src)
+		return
+	}
+	var names []string
+	fnRe := regexp.MustCompile(`(?m)^func (VX_[A-Za-z0-9_]+)\(\)`)
+	pkgName := ""
+	for _, e := range ents {
+		if !strings.HasSuffix(e.Name(), ".go") {
+			continue
+		}
+		data, _ := os.ReadFile(filepath.Join(src, e.Name()))
+		os.WriteFile(filepath.Join(r.S.Repo, pkgRel, e.Name()), data, 0o644)
+		for _, m := range fnRe.FindAllStringSubmatch(string(data), -1) {
+			names = append(names, m[1])
+		}
+		if m := regexp.MustCompile(`(?m)^package (\w+)`).FindStringSubmatch(string(data)); m != nil {
+			pkgName = m[1]
+		}
+	}
+	sort.Strings(names)
+	var rt strings.Builder
+	fmt.Fprintf(&rt, "package %s\n\nimport (\n\t\"testing\"\n\n\t\"%s/vxlib/vx\"\n)\n\nfunc TestVXReplay(t *testing.T) {\n\tvx.Replay(t, map[string]func(){\n", pkgName, modPath)
+	for _, n := range names {
+		fmt.Fprintf(&rt, "\t\t%q: %s,\n", n, n)
+	}
+	rt.WriteString("\t})\n}\n")
+	os.WriteFile(filepath.Join(r.S.Repo, pkgRel, "zz_vx_replay_test.go"), []byte(rt.String()), 0o644)
+	r.stage("harnesses injected into " + pkgRel)
+	ld, err := loadProgram(r.S.Repo, []string{"./" + pkgRel}, goEnv())
+	if err != nil {
+		r.inconsistent("loading " + pkgRel + " with harnesses failed: " + err.Error())
+		return
+	}
+	if len(ld.Bad) > 0 {
+		for k, v := range ld.Bad {
+			r.inconsistent("package does not type-check with harnesses: " + k + ": " + trunc(v, 500))
+		}
+		return
+	}
+	if r.Spec.Timeout != nil {
+		solverTimeout = r.Spec.Timeout(r.Tier)
+	}
+	opts := RunOpts{Bounds: bounds, Workers: r.Workers, CrossCheck: r.Tier == "thorough", Filter: regexp.MustCompile(filter), Native: native}
+	if r.Filter != nil {
+		opts.Filter2 = r.Filter
+	}
+	res := runHarnesses(ld, opts)
+	r.Programs += len(res)
+	r.Results = append(r.Results, res...)
+	r.Extra["bounds"] = bounds
+	r.classify(res)
+	r.stage("mode B harnesses decided")
+	if verbose {
+		for _, hr := range res {
+			fmt.Fprintf(os.Stderr, "  %-34s %-12s solve=%dms exec=%dms obls=%d terms=%d %s\n", hr.Name, hr.Status, hr.SolveMs, hr.ExecMs, len(hr.Obls), hr.Terms, trunc(hr.Detail, 300))
+		}
+	}
 }
